@@ -10,6 +10,10 @@ and runs `text` with `data` bound to `$`:
   percall    engine(text, options=own options)
   ctxdata    yaql.create_context-style: the document is bound by the host (`context['$'] = convert_input_data(data)`,
              what Statement.evaluate does) on a child context, then evaluate(context=that child)
+  createctx  `ctx = yaql.create_context(data=data)` - the PUBLIC way to bind a document: `$` then lives in the ROOT of a
+             library context made for this one evaluation, below the layers of the standard library - and
+             `evaluate(context=ctx)` (or a child of it) without data; only when a check names it in `allow` (a context is
+             built per evaluation, ~5 ms; the functions of `root` that the host registered itself are not in it)
   iface      YaqlInterface(child, engine)(text') with the document as the first positional argument; `$` in the text
              is spelled `$1` there - only used when the text allows that rewriting (see `iface_text`) and only when a
              check names it in `allow` (it is not among the default paths)
@@ -76,6 +80,13 @@ def evaluate(engine, root, text, data, salt=0, allow=None, statement_cache=None)
                 ctx['$'] = data
             return st.evaluate(context=ctx)
         return st.evaluate(data=data, context=ctx)
+    if how == 'createctx':
+        import yaql
+        if hasattr(data, '__next__') or not engine.options.get('yaql.convertInputData', True):
+            return engine(text).evaluate(data=data, context=ctx)       # (create_context always converts its data)
+        bound = yaql.create_context(data=data)
+        return engine(text).evaluate(context=bound if (zlib.crc32(text.encode('utf8', 'replace')) + salt) % 2 else
+                                     bound.create_child_context())
     if how == 'iface':
         # the interface converts its arguments and its result whatever the engine's options say: the same meaning only
         # for an engine with both conversions on - otherwise (or when the text cannot be respelled) the plain path
